@@ -74,6 +74,12 @@ class C14(Prop):
             'exceptions, and scenarios on the REAL Twisted reactor (feature reactor:real; five of them also in quick). non-trivial = at '
             'least one stage returns a Deferred or has a side effect; distinct = distinct input S-expression')
     assumptions = [
+        'translator tie: harness/pyasync2lean.py re-reads _run_deferred (callback chain and nested functions), _run_cleanups, _run_user, '
+        '_log_user_exception, _blocking_run_deferred, _run_core, the broken-Twisted iteration count, flush_logged_errors, assert_fails_with '
+        'and _ErrorObserver._setUp as data; TTV.AsyncSkel resolves the chain into a decision tree and runs it over the model\'s primitives, '
+        'C14_src_* prove the model\'s chain and accounting are that interpretation (addCallback vs addBoth is in the data but not in the '
+        'interpretation: the Deferreds of _run_user never fail); the Spinner side is C15\'s tie (C14_src_iterations uses its iteration '
+        'count); trusted: the recognisers and that the interpreters read the forms as Python / Twisted do',
         'the route by which an error reaches Twisted\'s log is part of the side-effect alphabet: twisted.python.log.err, '
         'twisted.logger.Logger().failure, Logger().error with log_failure=, and the reactor\'s own call for an exception raised by a delayed '
         'call (emitted synchronously by the stage with the reactor\'s namespace and format; a delayed call that actually raises is not '
